@@ -812,12 +812,24 @@ fn append(mut top: Lineage, bottom: Lineage) -> Result<Lineage, Error> {
                     },
                 }
             }
-            (t, b) => return Err(Error::new_simple(format!(
-                "cannot match columns `{t:?}` and `{b:?}`"
-            ))
-            .push_hint(
-                "make sure that top and bottom relations of append has the same column layout",
-            )),
+            (t, b) => {
+                // `except` is a hash set: print it sorted, so that the message is stable
+                let debug = |col: &LineageColumn| match col {
+                    LineageColumn::All { input_id, except } => {
+                        let except = except.iter().collect::<std::collections::BTreeSet<_>>();
+                        format!("All {{ input_id: {input_id:?}, except: {except:?} }}")
+                    }
+                    col => format!("{col:?}"),
+                };
+                return Err(Error::new_simple(format!(
+                    "cannot match columns `{}` and `{}`",
+                    debug(&t),
+                    debug(&b)
+                ))
+                .push_hint(
+                    "make sure that top and bottom relations of append has the same column layout",
+                ));
+            }
         });
     }
 
